@@ -88,6 +88,9 @@ def encodeParentsOld (oids : List Bytes) (ps : List Bytes) : Nat × Nat :=
 /-! ### `generate_commit_graph`: which commits are described at all -/
 
 /-- all parents of every entry are entries themselves -/
+def Closed (es : List (Bytes × List Bytes)) : Prop := ∀ e ∈ es, ∀ p ∈ e.2, p ∈ es.map (·.1)
+
+/-- decidable form of `Closed` -/
 def closedB (es : List (Bytes × List Bytes)) : Bool :=
   es.all (fun e => e.2.all (fun p => (es.map (·.1)).contains p))
 
